@@ -29,6 +29,9 @@ type IncPlan struct {
 	// CloseError: closing this connection tears it down but reports an error (a half-broken socket): Close of the reconnectable
 	// transport must be final all the same
 	CloseError bool `json:"close_error,omitempty"`
+	// SlowWriteUs: every Write on this connection takes that long before it is accepted (a congested link): reads fail and
+	// redials happen WHILE a write is in progress (seeded change C18/m5: such a write was sent again on the next connection)
+	SlowWriteUs int `json:"slow_write_us,omitempty"`
 }
 
 type Case struct {
@@ -164,19 +167,26 @@ func (t *fakeTr) Write(b []byte) error {
 	}
 	t.w.mu.Unlock()
 	t.mu.Lock()
-	defer t.mu.Unlock()
 	if t.closed || t.broken {
+		t.mu.Unlock()
 		return transport.ErrAlreadyClosed
 	}
 	t.writes++
 	if t.plan.FailWriteAt > 0 && t.writes >= t.plan.FailWriteAt {
 		t.broken = true
 		t.cond.Broadcast()
+		t.mu.Unlock()
 		return errors.New("fake: write failed, connection broken")
 	}
 	t.w.mu.Lock()
 	t.w.accepted = append(t.w.accepted, acc{t.idx, string(b)})
 	t.w.mu.Unlock()
+	t.mu.Unlock()
+	// the connection has taken the bytes; on a congested link the call returns only later - possibly after the read side has
+	// failed and the transport has been replaced
+	if t.plan.SlowWriteUs > 0 {
+		time.Sleep(time.Duration(t.plan.SlowWriteUs) * time.Microsecond)
+	}
 	return nil
 }
 
@@ -372,6 +382,29 @@ func run(c Case, k *ev.Case) *ev.Failure {
 	case <-readDone:
 		diedByItself = true // the transport gave up (budget exhausted) before we closed it
 	default:
+	}
+	if diedByItself {
+		// "when the redial budget is exhausted, pending AND LATER Reads fail instead of blocking" - before anybody calls Close
+		// (seeded change C18/m6: the pending Read got the error, the next one blocked for good)
+		// (messages that were already buffered may still be handed out - they are checked with the rest below - but the buffer is
+		// finite and an error must follow; no Read blocks)
+		errs := 0
+		for i := 0; i < 1100 && errs < 2; i++ {
+			var lerr error
+			var b []byte
+			if ok, _ := sim.Call(slack, func() { b, lerr = tr.Read() }); !ok {
+				return ev.Failf("C18.6 hang", "the transport gave up (redial budget exhausted) and the pending Read failed, but Read number %d after that blocks", i+1)
+			}
+			if lerr == nil {
+				got = append(got, string(b))
+				continue
+			}
+			errs++
+		}
+		if errs < 2 {
+			return ev.Failf("C18.6 read-after-exhaustion", "after the transport gave up, 1100 further Reads returned messages and no error")
+		}
+		k.Label("reads-after-exhaustion")
 	}
 	doClose()
 	select {
@@ -620,6 +653,9 @@ func gen(t *rapid.T) Case {
 			}
 		}
 		p.CloseError = rapid.IntRange(0, 3).Draw(t, "closeerr") == 0
+		if rapid.IntRange(0, 2).Draw(t, "slowwrite") == 0 {
+			p.SlowWriteUs = rapid.SampledFrom([]int{200, 1000, 3000}).Draw(t, "slowwriteus")
+		}
 		c.Incs = append(c.Incs, p)
 	}
 	if !c.Exhaust {
